@@ -103,3 +103,27 @@ Print Assumptions C01_regularity_is_decidable.
 Example C01_regular_example :
   build_regularb 3 (2,2,2) [(1, 0, (6,6,6))] 0 (cell_init (0,0,0) (8,8,8)) = true.
 Proof. vm_compute. reflexivity. Qed.
+
+(* ... and in every dimensionality: the unused coordinates of the generator and of the sites are zero (projected away by
+   the code; the correspondence feeds the model the projected positions), the safety radius is measured in the active ones *)
+From MV Require Import Proofs.FeasibleDim.
+Theorem C01_vertices_feasible_any_dim : forall dim lo hi g sites c,
+  (let '(lx, ly, lz) := lo in let '(hx, hy, hz) := hi in lx < hx /\ ly < hy /\ lz < hz) ->
+  flat dim g -> Forall (fun s => flat dim (site_pos s)) sites ->
+  StronglySorted (fun a b => dist2 g a <= dist2 g b) sites ->
+  build_regular dim g sites 0 (cell_init lo hi) -> build dim lo hi g sites = Some c ->
+  Forall (fun v => 0 < snd (vloc v) /\ Forall (fun r => 0 <= side r (vloc v)) (walls lo hi) /\
+                   forall s, In s sites -> 0 <= side (bisector g s) (vloc v)) (cverts c).
+Proof. exact build_vertices_feasible. Qed.
+Print Assumptions C01_vertices_feasible_any_dim.
+
+Theorem C01_hull_in_region_any_dim : forall dim lo hi g sites c l,
+  (let '(lx, ly, lz) := lo in let '(hx, hy, hz) := hi in lx < hx /\ ly < hy /\ lz < hz) ->
+  flat dim g -> Forall (fun s => flat dim (site_pos s)) sites ->
+  StronglySorted (fun a b => dist2 g a <= dist2 g b) sites ->
+  build_regular dim g sites 0 (cell_init lo hi) -> build dim lo hi g sites = Some c ->
+  Forall (fun '(lam, p) => 0 <= lam /\ exists v, In v (cverts c) /\ p = vloc v) l ->
+  Exists (fun '(lam, _) => 0 < lam) l ->
+  forall s, In s sites -> closer g s (hcomb l).
+Proof. exact build_hull_in_region. Qed.
+Print Assumptions C01_hull_in_region_any_dim.
